@@ -8,7 +8,7 @@
 //        tuple <name> (<objtype-int> <objname> <prm>)+      skin <name> <body1> <body2> <material|~>
 //        hfield <name> <nrow> <ncol> <seed>                 geomstr <geomname> hfieldname|material|meshname <value>
 //        flex <name> <dim 1|2> <body>...(dim+1 bodies)      default <class> <parentclass|~> <seed>
-//        setdefault <objtype-int> <name> <class>]
+//        setdefault <objtype-int> <name> <class>            lropt <mode> <useexisting> <uselimit> <inttotal> <interval>]
 // The harness adds <ntex> builtin textures (+ one material per texture) derived from <seed>, then checks
 //   twice      mj_compile(spec) twice gives bit-identical models
 //   copyspec   mj_compile(mj_copySpec(spec)) gives the same model (copy taken from the compiled spec); the copy has the same
@@ -271,6 +271,13 @@ bool read_extras(mjSpec* s, char* err, int errsz) {
       const mjsDefault* d = mjs_findDefault(s, tok[3]);
       if (!e || !d) XFAIL("setdefault: element %s or class %s not found", tok[2], tok[3]);
       mjs_setDefault(e, d);
+    } else if (!std::strcmp(tok[0], "lropt")) {
+      if (n != 6) XFAIL("bad lropt line");
+      s->compiler.LRopt.mode = std::atoi(tok[1]);
+      s->compiler.LRopt.useexisting = std::atoi(tok[2]);
+      s->compiler.LRopt.uselimit = std::atoi(tok[3]);
+      s->compiler.LRopt.inttotal = std::strtod(tok[4], nullptr);
+      s->compiler.LRopt.interval = std::strtod(tok[5], nullptr);
     } else XFAIL("unknown extra op %s", tok[0]);
 #undef XFAIL
   }
@@ -396,6 +403,7 @@ void run_case(int ntex, unsigned seed, int nstep, bool extras) {
       mjs_setName(nj->element, "c33_added_joint");
       nj->type = mjJNT_SLIDE;
       nj->ref = 0.25;
+      nj->limited = mjLIMITED_TRUE; nj->range[0] = -0.5; nj->range[1] = 1.0;   // a length range can be computed for it
       mjsGeom* ng = mjs_addGeom(nb, nullptr);
       ng->type = mjGEOM_SPHERE; ng->size[0] = 0.05; ng->contype = 0; ng->conaffinity = 0;
       int nq0 = mr->nq, nv0 = mr->nv;
